@@ -33,7 +33,7 @@ def tasks(tier, seed):
                fuc=['segno.writers._color_to_rgba', 'segno.writers._color_to_rgb_or_rgba', 'segno.writers._hex_to_rgb_or_rgba', 'segno.writers._alpha_value',
                     'segno.writers._color_to_webcolor', 'segno.writers._NAME2RGB']),
           Task('colour_tuples', MOD, 'task_colour_tuples', (), fuc=['segno.writers._color_to_rgba'])]
-    n = 2 if tier == 'quick' else 25
+    n = 6 if tier == 'quick' else 25
     for k in range(16):
         ts.append(Task('bounded_vector[%d]' % k, MOD, 'task_bounded_vector', (seed, k, n), backend='bounded',
                        fuc=['segno.writers.write_svg', 'segno.writers.write_eps', 'segno.writers.write_pdf', 'segno.writers.write_tex',
